@@ -3,6 +3,7 @@ package main
 import (
 	"fmt"
 	"go/token"
+	"os"
 	"sort"
 	"strings"
 
@@ -60,26 +61,20 @@ func checkC33(c *Ctx) (string, []string) {
 			deb = append(deb, exprStr(k.Common().Args[0], shapeOpts))
 		}
 		c.Check(len(deb) == 1 && deb[0] == bytes, "C33.machine", "PVM.machine · validated bytes", f.Pos(), "the stored bytes are the ones validated", "DeBlobProgramCode is applied to "+strings.Join(deb, ";")+", not to the stored bytes")
-		keyOK, retOK, loopOK := false, false, false
+		keyOK, retOK, why := false, false, "no store into the machine map"
+		isMap := func(x ssa.Value) bool { return exprStr(x, shapeOpts) == MAP }
 		allInstrs(f, func(in ssa.Instruction) {
-			if mu, ok := in.(*ssa.MapUpdate); ok && exprStr(mu.Map, shapeOpts) == MAP {
-				keyOK = exprStr(mu.Key, shapeOpts) == "*" && isLoopFrom(mu.Key, 0)
+			if mu, ok := in.(*ssa.MapUpdate); ok && isMap(mu.Map) {
+				keyOK, why = lowestAbsentKey(mu.Key, isMap, 0)
 				// R7 receives the same value
-				allInstrs(f, func(x ssa.Instruction) {
-					if _, k, isC, ok := e.registerStore(x); ok && isC && k == 7 {
-						if sameExpr(x.(*ssa.Store).Val, mu.Key) {
-							retOK = true
-						}
+				for _, rv := range e.registerValues(f) {
+					if rv.k == 7 && sameExpr(rv.val, mu.Key) {
+						retOK = true
 					}
-				})
+				}
 			}
 		})
-		for _, s := range condShapes(f) {
-			if s == MAP+"[*]#1" {
-				loopOK = true
-			}
-		}
-		c.Check(keyOK && loopOK, "C33.machine", "PVM.machine · identifier", f.Pos(), "identifier = first n from 0 not present in the machine map", "the new machine's identifier is not the lowest identifier absent from the map (a live machine can be overwritten)")
+		c.Check(keyOK, "C33.machine", "PVM.machine · identifier", f.Pos(), "identifier = first n from 0 not present in the machine map (counter from 0 by 1, advanced only past keys, left only at a non-key)", "the new machine's identifier is not the lowest identifier absent from the map (a live machine can be overwritten): "+why)
 		c.Check(retOK, "C33.machine", "PVM.machine · returned identifier", f.Pos(), "register 7 receives the identifier used as the key", "register 7 does not receive the key under which the machine was stored")
 	}
 
@@ -420,10 +415,20 @@ func checkC33(c *Ctx) (string, []string) {
 	c.Rule("C33.expunge", "expunge returns the machine's pc and removes exactly that machine", 2)
 	if f := c.Fn("PVM", "expunge"); f != nil {
 		okR, okD := false, false
-		allInstrs(f, func(in ssa.Instruction) {
-			if _, k, isC, ok := e.registerStore(in); ok && isC && k == 7 && exprStr(in.(*ssa.Store).Val, shapeOpts) == "u64("+M+".PC)" {
-				okR = true
+		for _, rv := range e.registerValues(f) {
+			if rv.k != 7 {
+				continue
 			}
+			for _, leaf := range phiLeaves(rv.val) {
+				if os.Getenv("JAMVERIF_C33DEBUG") != "" {
+					fmt.Println("expunge leaf:", c33Loose(exprStr(leaf, shapeOpts)), "want", c33Loose("u64("+M+".PC)"))
+				}
+				if c33Loose(exprStr(leaf, shapeOpts)) == c33Loose("u64("+M+".PC)") {
+					okR = true
+				}
+			}
+		}
+		allInstrs(f, func(in ssa.Instruction) {
 			if call, ok := in.(*ssa.Call); ok {
 				if b, ok := call.Call.Value.(*ssa.Builtin); ok && b.Name() == "delete" && exprStr(call.Call.Args[0], shapeOpts) == MAP && exprStr(call.Call.Args[1], shapeOpts) == R(7) {
 					okD = true
